@@ -3,6 +3,7 @@
 Observation: probe `ts_grid` (zerv::version::zerv::resolve_timestamp) under several TZ
 values; the real binary with calver presets and `ts("P")` schema components; stdin
 objects with only last_timestamp set.  Oracle: zv.refs.cal (own civil calendar)."""
+import os
 import re
 
 from .. import core
@@ -104,6 +105,48 @@ STDIN_OBJ = """(
 )"""
 
 
+def work_git(bins, seed, idx, tmp):
+    """CalVer from a real repository: the *committer* time of HEAD decides (author and tagger dates differ on purpose);
+    when HEAD is ahead of the tag it is still HEAD's time, not the tag's."""
+    import random
+    import shutil
+    from .. import gitmodel
+    rng = random.Random("%s/%d" % (seed, idx))
+    home = os.path.join(tmp, "g%d" % idx)
+    path = os.path.join(home, "repo")
+    os.makedirs(home, exist_ok=True)
+    bad = []
+    n = 0
+    try:
+        repo = gitmodel.Repo(path, rng)
+        repo.commit()
+        repo.tag("v1.2.3", annotated=rng.random() < 0.5)
+        for step in range(4):
+            head = repo.commits[repo.head_cid()]
+            f = cal.fields(head["ctime"])
+            tz = rng.choice(TZS)
+            env = core.base_env(bins, home=home, tz=tz)
+            for preset, fmt in ((rng.choice(CALVER), "semver"), (rng.choice(CALVER), "pep440")):
+                r = core.run_zerv(bins, ["version", "-C", path, "--schema", preset, "--output-format", fmt], env=env)
+                n += 1
+                m = _NUM3.match(r["out"].strip()) if r["exit"] == 0 else None
+                if not m or (int(m.group(1)), int(m.group(2)), int(m.group(3))) != (f["y"], f["m"], f["d"]):
+                    bad.append(("calver-date-differs", "git source: %s printed %r (exit %s); committer time of HEAD %d is %d-%d-%d UTC (author time %d, TZ=%s)" % (
+                        preset, r["out"].strip(), r["exit"], head["ctime"], f["y"], f["m"], f["d"], head["atime"], tz), ("git", seed, idx)))
+            schema = '(core:[var(Major)], extra_core:[], build:[var(ts("compact_datetime")), var(ts("YY")), var(ts("WW"))])'
+            r = core.run_zerv(bins, ["version", "-C", path, "--schema-ron", schema], env=env)
+            n += 1
+            want = "1.0.0+%s.%d.%d" % (cal.resolve("compact_datetime", head["ctime"]), int(cal.resolve("YY", head["ctime"])), int(cal.resolve("WW", head["ctime"])))
+            if r["exit"] != 0 or r["out"].strip() != want:
+                bad.append(("ts-component-differs", "git source: ts components printed %r, expected %r" % (r["out"].strip(), want), ("git", seed, idx)))
+            repo.commit()
+    except gitmodel.GitError as e:
+        raise core.Inconclusive("git generator: %s" % e)
+    finally:
+        shutil.rmtree(home, ignore_errors=True)
+    return dict(n=n, bad=bad)
+
+
 def run(ctx):
     quick = ctx.tier == "quick"
     rng = ctx.sub_rng("ts")
@@ -156,6 +199,11 @@ def run(ctx):
         ctx.count("cli_runs_TZ=" + tz, r["n"])
         for sig, why, c in r["bad"]:
             ctx.refute(sig, why, dict(kind="cli", case=list(c), tz=tz))
+    for r in core.pmap(work_git, [(ctx.bins, "%s/%d" % (ctx.prop, ctx.seed), i, ctx.tmp) for i in range(16 if quick else 200)]):
+        ctx.evaluations += r["n"]
+        ctx.count("cli_runs_git_source", r["n"])
+        for sig, why, c in r["bad"]:
+            ctx.refute(sig, why, dict(kind="git", case=list(c)))
     for c in cases:
         if c[0] == "ts":
             seen_pat.add(c[1])
@@ -173,7 +221,9 @@ def run(ctx):
 
 def replay(ctx, doc):
     c = doc["case"]
-    if c["kind"] == "grid":
+    if c["kind"] == "git":
+        r = work_git(ctx.bins, c["case"][1], c["case"][2], ctx.tmp)
+    elif c["kind"] == "grid":
         r = work_grid(ctx.bins, c["tz"], [c["t"]])
     else:
         r = work_cli(ctx.bins, c["tz"], [tuple(c["case"])])
